@@ -140,6 +140,15 @@ func spec(dir string, entry []string, all bool, order []string) pipe.Spec {
 		if g == "g2" {
 			// a generator that registers deferred callbacks and imports per type
 			gs.Default.Defers = []pipe.Action{{Render: "var D_$T_$G = 1\n"}}
+			// package p (processed early) refers to two packages with the same last segment, the others only
+			// to the second one: the import name chosen inside p's file must not follow into theirs
+			gs.Default.Imports = []string{"x.io/ext/meta"}
+			gs.ByType = map[string]pipe.Action{}
+			for _, tn := range []string{"A", "Sub", "Named", "Z"} {
+				a := gs.Default
+				a.Imports = []string{"x.io/core/meta", "x.io/ext/meta"}
+				gs.ByType[modPath+"/p."+tn] = a
+			}
 		}
 		gens = append(gens, gs)
 	}
